@@ -674,8 +674,18 @@ pub fn run(o: &Opts) -> R<()> {
     let mut renames = 0usize;
     for _ in 0..n_pairs {
         let mut used = Vec::new();
-        let a: Vec<VarDesc> = (0..rng.gen_range(1..4)).map(|_| idioms::random_var(&mut rng, &mut used)).collect();
-        let b: Vec<VarDesc> = (0..rng.gen_range(1..4)).map(|_| idioms::random_var(&mut rng, &mut used)).collect();
+        let mut a: Vec<VarDesc> = (0..rng.gen_range(1..4)).map(|_| idioms::random_var(&mut rng, &mut used)).collect();
+        let mut b: Vec<VarDesc> = (0..rng.gen_range(1..4)).map(|_| idioms::random_var(&mut rng, &mut used)).collect();
+        // often: both fragments write values from the same environment source, in different shapes
+        if rng.gen_bool(0.5) {
+            let src = rng.gen_range(1..5);
+            for v in a.iter_mut().chain(b.iter_mut()) {
+                v.src = src;
+                if !v.access.contains('w') {
+                    v.access = "rw".to_string();
+                }
+            }
+        }
         let mut ab = a.clone();
         ab.extend(b.clone());
         if rng.gen_bool(0.5) {
